@@ -207,7 +207,19 @@ package statedb
 //@   flag nosafety
 //@   requires handle != nil
 //@   requires handle.writeTxnState != nil ==> handle.writeTxnState.db != nil && !GH_held[addr(handle.writeTxnState.db.mu)] && GH_smus[handle.writeTxnState.smus]
+//@   requires handle.writeTxnState != nil ==> (forall p int, q int :: 0 <= p && p < q && q < len(handle.writeTxnState.tableEntries) ==> handle.writeTxnState.tableEntries[p] != handle.writeTxnState.tableEntries[q])
+//@   requires handle.writeTxnState != nil ==> (forall p int :: 0 <= p && p < len(handle.writeTxnState.tableEntries) ==> handle.writeTxnState.tableEntries[p] != nil)
 //@   atcall (*Pointer).Load@1 requires @load-under-mu GH_held[addr(db.mu)]
+//@   aftercall (*Pointer).Load@1 assume arr(*result) != arr(txn.tableEntries)
+//@   loop 3 invariant @merge-root-is-clone root == old(handle.writeTxnState.tableEntries)
+//@   loop 3 invariant @merge-range 0 <= $i && $i <= len(old(handle.writeTxnState.tableEntries))
+//@   loop 3 invariant @merge-done-locked forall p int :: 0 <= p && p < $i && old(handle.writeTxnState.tableEntries[p].locked) ==> root[p] == old(handle.writeTxnState.tableEntries[p])
+//@   loop 3 invariant @merge-done-unlocked forall p int :: 0 <= p && p < $i && !old(handle.writeTxnState.tableEntries[p].locked) ==> root[p] == currentRoot[p]
+//@   loop 3 invariant @merge-todo forall p int :: $i <= p && p < len(root) ==> root[p] == old(handle.writeTxnState.tableEntries[p]) && root[p].locked == old(handle.writeTxnState.tableEntries[p].locked)
+//@   atcall (*Pointer).Store@1 requires @merge-covers-current-root len(root) >= len(currentRoot)
+//@   atcall (*Pointer).Store@1 requires @merge-locked-kept forall p int :: 0 <= p && p < len(old(handle.writeTxnState.tableEntries)) && old(handle.writeTxnState.tableEntries[p].locked) ==> root[p] == old(handle.writeTxnState.tableEntries[p])
+//@   atcall (*Pointer).Store@1 requires @merge-unlocked-from-current forall p int :: 0 <= p && p < len(old(handle.writeTxnState.tableEntries)) && !old(handle.writeTxnState.tableEntries[p].locked) ==> root[p] == currentRoot[p]
+//@   atcall (*Pointer).Store@1 requires @merge-appended forall p int :: len(old(handle.writeTxnState.tableEntries)) <= p && p < len(root) ==> root[p] == currentRoot[p]
 //@   atcall (*Pointer).Store@1 requires @store-under-mu GH_held[addr(db.mu)] && GH_stores[addr(db.root)] == old(GH_stores)[addr(db.root)]
 //@   atcall tableIndexTxnNotify.notify@* requires @notify-after-publish GH_stores[addr(db.root)] == old(GH_stores)[addr(db.root)] + 1
 //@   atcall SortableMutexes.Unlock@1 requires @unlock-after-publish GH_stores[addr(db.root)] == old(GH_stores)[addr(db.root)] + 1 && !GH_held[addr(db.mu)]
@@ -371,10 +383,23 @@ package statedb
 //@ func anyDeleteTracker.getRevision
 //@   trusted
 //@   pure
+// Interface view of a write transaction for callers inside the module: Commit and Abort
+// take and release db.mu and the table locks, so the set of mutexes held is unchanged.
+//@ func WriteTxn.Commit
+//@   trusted
+//@   modifies H_statedb_* H_part_* H_lpm_* E_* GH_* CH_closed MD_* MV_* MN_* B_*
+//@   ensures unchanged(GH_held)
+//@ func WriteTxn.Abort
+//@   trusted
+//@   modifies H_statedb_* H_part_* H_lpm_* E_* GH_* CH_closed MD_* MV_* MN_* B_*
+//@   ensures unchanged(GH_held)
+
 //@ func graveyardWorker
-//@   property C08
+//@   property C08 C10
 //@   flag nosafety
 //@   maypanic
+//@   requires db != nil && !GH_held[addr(db.mu)]
+//@   loop 1 invariant @no-root-mutex !GH_held[addr(db.mu)]
 //@   loop 3 invariant @below-table-revision lowWatermark <= table.revision
 //@   loop 3 backedge @below-tracker lowWatermark <= rev
 //@   loop 3 backedge @monotone lowWatermark <= atHead(lowWatermark)
@@ -456,3 +481,22 @@ package statedb
 //@   requires it != nil && it.dt != nil && it.dt.table == it.table
 //@   ensures @idle old(it.iter) == nil && !old(closed(it.watch)) ==> watch == old(it.watch) && it.iter == nil && it.watch == old(it.watch) && it.revision == old(it.revision) && it.deleteRevision == old(it.deleteRevision)
 //@   ensures @pending old(it.iter) != nil || old(closed(it.watch)) ==> watch == closedWatchChannel && it.watch == watchOf(croot(txn)[tposOf(it.table)].indexes[0]) && it.iter != nil
+
+// WriteTxn: the root is loaded only after the table locks are held (so the transaction sees
+// every write committed to its tables earlier), and never while db.mu is held.
+//@ func reuseSlice
+//@   inline
+//@ func TableMeta.getAcquiredInfo
+//@   trusted
+//@   pure
+//@ func (*DB).WriteTxn
+//@   property C05 C10
+//@   flag nosafety
+//@   maypanic
+//@   flag dyncall.New=pure
+//@   modifies H_statedb_* H_part_* H_lpm_* E_* GH_* CH_closed MD_* MV_* MN_* B_* H_internal_* H_time_*
+//@   requires db != nil && !GH_held[addr(db.mu)]
+//@   atcall (*Pointer).Load@1 requires @load-after-table-locks GH_smus[txn.smus] && !GH_held[addr(db.mu)]
+//@   atcall SortableMutexes.Lock@1 requires @no-root-mutex-while-locking !GH_held[addr(db.mu)]
+//@   ensures @root-mutex-untouched unchanged(GH_held)
+//@   ensureslocal @holds-table-locks GH_smus[txn.smus] && !GH_held[addr(db.mu)]
